@@ -355,7 +355,8 @@ def table_unit(arg):
                 acc.violation(sig, dict(unit="table", stem=stem, atom=atom_code(spec), route="energy-vector"),
                               expected="the factors of %s: %r" % (sym, [fl(vec_e[0][0]), fl(vec_e[1][0])]),
                               observed=obs, standalone=code)
-    element_sld(pt, xsf, consts, t, el, sym, acc)
+    if not acc.viol:
+        element_sld(pt, xsf, consts, t, el, sym, acc)
     return acc
 
 
@@ -487,6 +488,8 @@ def f0_unit(ent, pt, cm, acc):
     ok = check(lambda Q: cm.fxrayatq(sym, Q), head + "print(cromermann.fxrayatq(%r, %%s))\n" % sym, "fxrayatq(%r)" % sym,
                "base")
     acc.outcome("f0:direct")
+    if not ok:
+        return            # the coefficient set itself is served wrongly: atoms reaching it add nothing
     if parts is None:
         acc.outcome("f0:valence-entry-no-atom")
         return
@@ -503,6 +506,7 @@ def f0_unit(ent, pt, cm, acc):
     if q and q not in el.ions:
         acc.outcome("f0:ion-not-reachable-from-table")
         return
+    el.xray               # canonical history: the element's record exists before its ions are asked
     # electron count rule (file Z and charge): f0 -> Z - q for Q -> 0
     base_spec = (esym, None, q)
     specs = [(base_spec, "base")] + [((esym, iso.isotope, q), "isotope-ion" if q else "isotope") for iso in el]
@@ -514,6 +518,8 @@ def f0_unit(ent, pt, cm, acc):
             return atom_obj(pt, spec).xray.f0(Q)
         good = check(getter, code, atom_code(spec), klass, alias)
         acc.outcome("f0:" + ("ion" if (q and klass == "base") else "element" if klass == "base" else klass))
+        if klass == "base" and not good:
+            return        # the element / element ion is wrong: its isotopes would only repeat it
         if klass == "base" and good:
             for Q in (0.0, 1e-6):
                 acc.transitions += 1
@@ -886,7 +892,26 @@ def compound_shard(arg):
             xsf.xray_sld({atom_obj(pt, a): 1}, density=1.0, energy=8.04)
         except Exception:
             broken.add(a)
+    # elements whose scattering factors are wrong at the energies used here are reported by the table
+    # units; compounds containing them are not explored (successors of a broken state add only noise)
+    T = rx.nff_tables()
+    wrong = set()
+    for sym in sorted(set(a[0] for c in cmpds for a, _ in c)):
+        Es = sorted(set(e for c in cmpds if any(a[0] == sym for a, _ in c) for e in cmpd_energies(c, tier)))
+        t = T[sym.lower()]
+        try:
+            f1, f2 = pt.elements.symbol(sym).xray.scattering_factors(energy=np.array(Es))
+            for j, e in enumerate(Es):
+                cl = rx.sf_candidates(t, e)
+                if cl is not None and not match(f1[j], f2[j], cl):
+                    wrong.add(sym)
+                    break
+        except Exception:
+            wrong.add(sym)
     for c in cmpds:
+        if any(a[0] in wrong for a, _ in c):
+            acc.count("compounds_skipped_constituent_factors_wrong")
+            continue
         compound_unit(c, pt, xsf, consts, tier, acc, broken)
     return acc
 
@@ -916,8 +941,13 @@ def run(ctx):
         bins[k].append(s)
         load[k] += weight(s) + 40
     jobs = [("table", (b, quick, ctx.seed)) for b in bins if b]
-    for ch in chunks(rotate(ents, ctx.seed), 6):
-        jobs.append(("f0", (ch, quick, ctx.seed)))
+    # entries of one element stay together and in file order (neutral atom first, then its ions): the
+    # X-ray record of an ion is created lazily and must not depend on the element's having been used
+    byz = {}
+    for e in ents:
+        byz.setdefault(e["Z"], []).append(e)
+    for ch in chunks(rotate(sorted(byz), ctx.seed), 6):
+        jobs.append(("f0", ([e for z in ch for e in byz[z]], quick, ctx.seed)))
     cl = compound_list(tier)
     for ch in chunks(rotate(cl, ctx.seed), nshard):
         jobs.append(("compound", (ch, quick, ctx.seed)))
